@@ -31,6 +31,7 @@ CHECKS = {
               "the reference parser inverts the serialiser and that the loop finds the first sync pattern, and every element is "
               "replayed through the real encoders/decoders, esds and sample-entry builders; random executions over the full "
               "24-bit range are validated as traces by AacTrace.tla. The frequency a decoded ADTS header states is compared with table 1.18 "
+              "(two known findings). Every decoded header, also one from a CRC-protected frame, is encoded again and must decode to the same frame description. "
               "(two known findings)."),
         note=("Trusted: TLC, the Go replayer. ADTS headers with CRC / MPEG-2 id cannot be produced by the encoder and are "
               "judged as MODEL-DRIFT only. Extension frequency 2*sf must fit 24 bits for SetAACDescriptor."),
@@ -72,7 +73,7 @@ CHECKS = {
               "work-buffer size, checks Impl => Prop, and each behaviour is replayed on a materialised file decoded in normal, "
               "lazy and SR mode; range reads on real corpus files are validated as traces by MdatTrace.tla. Further layouts: a box with a "
               "64-bit size header in front of the mdat / fragment, and payloads of 2^32 + x bytes decoded lazily from a sparse virtual file "
-              "(size, header form, following box, last payload bytes, re-encoded header)."),
+              "(size, header form, following box, last payload bytes, re-encoded header). The built segmenter example runs with and without -lazy on Segmenter.tla inputs; every output file must be identical."),
         note=("Trusted: TLC, Go replayer/materialiser. Payloads up to 9 bytes in the exhaustive part; reads from the ReadSeeker are "
               "assumed to fill the buffer (bytes.Reader)."),
         technique="TLA+ spec + TLC exhaustive enumeration, behaviour replay into real code, TLC trace validation on corpus files",
@@ -85,7 +86,7 @@ CHECKS = {
               "(Prop) and folds an Impl model of File.AddChild/startSegmentIfNeeded over the box sequence; TLC checks Impl = Prop "
               "for all layouts and exports them; each is materialised with real sizes (two-pass sidx/tfra), decoded by both file "
               "decoders, and the observed partition, the segment-mode re-encoding and the index written by UpdateSidx (read back by "
-              "an independent walker: reference starts, contiguity, end of media, summed durations, EPT, timescale) are compared."),
+              "an independent walker: reference starts, contiguity, end of media, summed durations, EPT, timescale) are compared. Layout parameters include the media data of the tracks of a multi-track fragment in reverse track order."),
         note=("Trusted: TLC, Go materialiser/walker. styp combined with the start-on-moof flag and emsg directly before a tfra-named "
               "moof are outside the judged domain. reference_ID is not judged."),
         technique="TLA+ spec + TLC exhaustive enumeration of layouts, behaviour replay into real code with independent read-back",
@@ -102,7 +103,7 @@ CHECKS = {
               "tfhd / trex / trun defaulting rules of ISO 14496-12 8.8.7/8.8.8 and the running decode time; the raw box fields (own walk) and the samples the "
               "library returns are recorded for every track fragment of the corpus files and of a share of the segments written in the run, and TLC validates each run. "
               "Batch calls get their samples in two batches through one reused scratch slice; an interval followed by full samples; an unknown track id must be refused; "
-              "fragments of 1024 / 1025 / 3000 equal samples with and without trun optimisation."),
+              "fragments of 1024 / 1025 / 3000 equal samples with and without trun optimisation. Action AddFirst: AddSample / AddSamples on a multi-track fragment after another trun was written."),
         note=("Trusted: TLC, Go replayer incl. its ISO reader. Sample field values come from 5 classes (equal/different dur, size, "
               "flags, cto incl. negative, zero size); at most 7 adds per fragment, 2 tracks, 2 fragments."),
         technique="TLA+ history spec + TLC exhaustive enumeration, behaviour replay into real code with independent read-back, TLC trace validation of fragment reads",
@@ -147,7 +148,7 @@ CHECKS = {
               "containers = header + children; identical bytes across encodes and encoders; Size stable across calls). Histories are "
               "executed on every object of a pool: every box at every nesting level of every decodable corpus file, whole files in both "
               "encode modes, their init/segments/fragments, API-built fragments, media segments and init segments, and materialised files "
-              "(64-bit mdat, truns without data offset in three tfhd forms, encrypted and mixed-protection segments)."),
+              "(64-bit mdat, truns without data offset in three tfhd forms, encrypted and mixed-protection segments). The pool also holds the decodable instances of every BoxLayouts.tla box shape (boundary values; alone and inside the parent box)."),
         note=("Trusted: TLC, Go driver and its independent walker, FNV digests for byte identity. The pool holds the box types and shapes "
               "present in the corpus and the API-built objects, not every version/flag shape of every box (C01 layouts extend it)."),
         technique="TLA+ history spec: TLC enumerates call histories, replayed on real objects, TLC trace validation of recorded numbers",
@@ -160,7 +161,7 @@ CHECKS = {
               "(corpus and every FileAsm layout) DecodeBox/DecodeFile vs DecodeBoxSR/DecodeFileSR on canonical bytes with structure, "
               "size, re-encoding, grouping and start positions compared, and the key sets of the dispatch tables (hook); TLC validates "
               "the recorded outcomes. Every BoxLayouts.tla instance is an input too; lazily sized mdat boxes and fragments around the 32-bit size "
-              "limit are encoded by each encoder on its own fresh object."),
+              "limit are encoded by each encoder on its own fresh object. The reader path is also driven through readers that deliver the bytes in pieces: acceptance and structure with all start positions must be those of the in-memory reader."),
         note=("Trusted: TLC, Go driver. Structure equivalence = equal Info dump (all:1), equal Size, equal re-encoded bytes, equal "
               "file projection; default decode options only (as the property states)."),
         technique="TLA+ spec: TLC enumerates file layouts, both implementations observed on real objects, TLC trace validation",
@@ -176,7 +177,7 @@ CHECKS = {
               "CencTrace.tla. The five encrypted files of the repository that other tools produced (cenc and cbcs multi-traf "
               "files with a clear audio track, cbcs audio, PIFF audio and video with uuid senc) are decrypted by the library and, "
               "independently, by the harness (own senc walker + raw AES block function) and compared sample by sample. Media segments "
-              "with their own sidx must keep their top-level box sequence (known finding: DecryptSegment drops the sidx)."),
+              "with their own sidx must keep their top-level box sequence (known finding: DecryptSegment drops the sidx). The extra boxes of a traf include a roll sample group."),
         note=("Trusted: TLC, Go driver, its walker/ISO reader. Keys are fixed; IVs from 7 classes incl. wrap."),
         technique="TLA+ spec: TLC enumerates sample layouts, replay through real encrypt/decrypt, TLC trace validation of outcomes",
         design_ref="DESIGN.md section 5 C06/C07",
@@ -190,7 +191,7 @@ CHECKS = {
               "harness's own walker and every observed sample/fragment is validated by CencTrace.tla; protected bytes are compared with "
               "an independent CTR / CBC-pattern schedule built on the raw AES block function only, all other bytes with the clear input. "
               "A share of the jobs is encoded with trun optimisation (saio must still point at the senc entries); samples of 39 / 40 / 45 equal "
-              "protected NAL units probe the 8-bit limit of saiz (refusal is accepted from 40 on, a wrapped size is not)."),
+              "protected NAL units probe the 8-bit limit of saiz (refusal is accepted from 40 on, a wrapped size is not). A zero-length NAL unit (bare length field) is part of the sample domain."),
         note=("Trusted: TLC, Go driver/walker, crypto/aes block function. cbcs video: slice-header length from avc.ParseSliceHeader "
               "(judged by C15), corpus content only."),
         technique="TLA+ spec + TLC exhaustive enumeration, replay through real encryptor, TLC trace validation, independent cipher schedule",
@@ -241,7 +242,7 @@ CHECKS = {
               "count and range bombs in the parameter sets; H7: Exp-Golomb codes 2^32-1 .. 2^64-2 inserted at every bit position of the SPS and PPS of "
               "spec-serialised (SPS, PPS, slice) triples and of pic_timing payloads under sub-picture HRD. The built mp4ff-nallister / mp4ff-pslister binaries run on Annex B streams "
               "chosen by structural signature from all generated windows and on media segments without moov with every spelling of -c; "
-              "a Go panic or no return within 20 s is a violation."),
+              "a Go panic or no return within 20 s is a violation. The tools also run on whole fragmented files behind API-built init segments (avc1 / avc3 / hvc1 / hev1). HevcSyntax.tla serialises the multilayer, 3D and SCC extensions of the PPS; Exp-Golomb bombs include ue(255) and ue(65535)."),
         note=("The decisive observation is the runtime monitor on the real code; TLC supplies the H1 grammar and the bases and "
               "evaluates the invariant on the recorded outcomes. Exhaustive over the stated grammar only, not over all byte strings. "
               "Quick tier takes a seeded slice of the larger families."),
@@ -275,7 +276,7 @@ CHECKS = {
               "solo run, with per-goroutine reused key buffers, and key material passed as slices of one shared buffer) and Q3 (no other "
               "goroutine's object changes); the solo reference is computed in a process of its own per program, so package-level "
               "state left behind by earlier calls shows up. The same programs run on "
-              "real goroutines under the Go race detector with results compared against solo runs."),
+              "real goroutines under the Go race detector with results compared against solo runs. The race runs begin with every program against itself in lockstep (barrier before each call)."),
         note=("Call-level interleavings decide hidden state and aliasing; memory-access-level data races are decided by the race "
               "detector on the runs performed (writes inside assembly cipher routines are not instrumented). Level: exploration."),
         technique="TLA+ schedule enumeration replayed on real code with measured footprints, TLC trace validation, Go race detector",
@@ -307,7 +308,7 @@ CHECKS = {
               "BUILT examples/segmenter (single-track, -m, -lazy, -m -lazy), examples/resegmenter and examples/combine-segs binaries and "
               "MediaSegment.Fragmentify run on them and every output is read by the harness's independent ISO reader: per track the "
               "concatenated sample sequence must equal the input (count, bytes, durations, sync flag, composition offset, decode "
-              "time) and every segment of the video track must start with a sync sample."),
+              "time) and every segment of the video track must start with a sync sample. All-sync video tracks come with and without stss; every fourth input is stretched in time so that audio decode times pass 2^32; a runtime panic of a tool is a violation."),
         note=("Judged when a tool exits 0. Only the non-sync bit of the sample flags is compared (the tools derive the other bits). "
               "combine-segs is run on inputs with fully explicit truns (its documented limitation)."),
         technique="TLA+ spec + TLC exhaustive enumeration and design check, replay through the built example binaries with independent read-back",
